@@ -9,7 +9,10 @@ SeedN    == atoi(IOEnv.VERIF_SEED)
 
 BaseLens == {0, 1, 2, 3, 4, 5, 127, 128, 129, 130, 255, 256, 257, 511, 512, 513, 4095, 4096, 4097,
              65535, 65536, 65537}
-BigLens  == {131072, 1048576, 2097152}
+\* the property's quantifier goes up to 2^21: every codec is run at 2^20, 2^20 + 1 and 2^21 in thorough (a decoder
+\* resource limit of 1 MiB, say, shows only above 2^20), and LZMA / bzip2 at 2^20 + 1 on one class in quick
+BigLens  == {131072, 1048576, 1048577, 2097152}
+QuickBig == {[m |-> m, len |-> 1048577, cls |-> "text"] : m \in {LZMA, BZIP2}}
 SeedLens == {((SeedN % 1000) * 7919 + j * 10473) % 66000 : j \in 1..(IF Thorough THEN 30 ELSE 3)}
             \cup (IF Thorough THEN {((SeedN % 1000) * 7919 + j * 1047301) % 2097153 : j \in 1..4} ELSE {})
 LosslessClasses == {"zeros", "run", "period2", "period3", "period7", "period128", "period129",
@@ -21,7 +24,7 @@ OddSelectors == {0, HUFFMAN, IMPLODE, 6, 10, 12, 20, 36, 65, 68, 192, 194}
 
 Full ==
   {[m |-> m, len |-> n, cls |-> cl] : m \in LosslessSingles, n \in BaseLens \cup BigLens \cup SeedLens, cl \in LosslessClasses}
-  \cup {[m |-> m, len |-> n, cls |-> cl] : m \in AdpcmSelectors, n \in PcmLens \cup BigLens \cup {4 * (x \div 4) : x \in SeedLens}, cl \in PcmClasses}
+  \cup {[m |-> m, len |-> n, cls |-> cl] : m \in AdpcmSelectors, n \in PcmLens \cup {4 * ((x + 3) \div 4) : x \in BigLens} \cup {4 * (x \div 4) : x \in SeedLens}, cl \in PcmClasses}
   \* the store-raw boundary 1 + |c| = n, hit exactly: z zero bytes followed by non-zero bytes make the sparse
   \* encoder emit 4 + 1 + 1 + (n - z) bytes, so z = 7 is the last raw case and z = 8 the first prefixed one
   \cup {[m |-> SPARSE, len |-> n, cls |-> cl] : n \in {9, 40, 135}, cl \in {"z6nz", "z7nz", "z8nz"}}
@@ -33,7 +36,8 @@ InQuick(c) == /\ c.len <= 65537
               \* the rarely interesting classes only at boundary lengths in quick
               /\ (c.cls \in {"period2", "period3", "period129", "ramp"} => c.len \in {5, 129, 130, 257, 4097, 65536})
 
-CaseSet == IF Thorough THEN Full ELSE {c \in Full : InQuick(c)}
+CaseSet == IF Thorough THEN Full ELSE {c \in Full : InQuick(c)} \cup QuickBig
+ASSUME QuickBig \subseteq Full
 Cases == SetToSeq(CaseSet)
 \* Codec declares state variables; the generator is a constant-level evaluation with a trivial behaviour
 GOne(n) == {1}
